@@ -544,18 +544,35 @@ theorem cbRead_ext (sc : Script) (c : Nat) (s : St) : Ext s (cbRead sc c s) := b
   refine Ext.trans ?_ (emit_ext _ _)
   exact Ext.of_eq rfl rfl rfl rfl
 
+/-- `cbClose` is the callback proper followed, in the `closeFd` configuration, by the
+descriptor being closed — a field no table looks at -/
+theorem cbClose_eq (sc : Script) (c : Nat) (s : St) :
+    cbClose sc c s = runActs (sc.onClose c) (emit (.close c) s) ∨
+    cbClose sc c s = { runActs (sc.onClose c) (emit (.close c) s) with
+      fdClosed := upd (runActs (sc.onClose c) (emit (.close c) s)).fdClosed c true } := by
+  unfold cbClose
+  simp only []
+  split
+  · exact Or.inr rfl
+  · exact Or.inl rfl
+
 theorem cbClose_inv (sc : Script) {s : St} (h : Inv none s) {c : Nat} (hc : c ∈ s.ctxList) :
     Inv (some c) (cbClose sc c s) := by
-  unfold cbClose
-  exact runActs_inv _ (emit_close_inv h hc)
+  have h1 : Inv (some c) (runActs (sc.onClose c) (emit (.close c) s)) := runActs_inv _ (emit_close_inv h hc)
+  rcases cbClose_eq sc c s with he | he <;> rw [he]
+  · exact h1
+  · exact h1.congr rfl rfl rfl rfl rfl rfl rfl
 
 theorem cbClose_ext (sc : Script) (c : Nat) (s : St) : Ext s (cbClose sc c s) := by
-  unfold cbClose
-  exact (emit_ext _ _).trans (runActs_ext _ _)
+  have h1 : Ext s (runActs (sc.onClose c) (emit (.close c) s)) := (emit_ext _ _).trans (runActs_ext _ _)
+  rcases cbClose_eq sc c s with he | he <;> rw [he]
+  · exact h1
+  · exact h1.trans (Ext.of_eq rfl rfl rfl rfl)
 
 theorem cbClose_closed (sc : Script) (c : Nat) (s : St) : Ev.close c ∈ (cbClose sc c s).trace := by
-  unfold cbClose
-  exact (runActs_ext _ _).mem_tr (by simp [emit])
+  have h1 : Ev.close c ∈ (runActs (sc.onClose c) (emit (.close c) s)).trace :=
+    (runActs_ext _ _).mem_tr (by simp [emit])
+  rcases cbClose_eq sc c s with he | he <;> rw [he] <;> exact h1
 
 theorem handleWake_inv (sc : Script) {pend} {s : St} (h : Inv pend s) : Inv pend (handleWake sc s) := by
   unfold handleWake
